@@ -25,6 +25,7 @@ type c09Case struct {
 	Increase  string `json:"slowStartAdditiveIncrease"`
 	Parallel  int32  `json:"maxParallelPodCreation"`
 	ActiveCnd string `json:"active_condition"`
+	Untargeted int   `json:"listed_nodes_not_targeted"` // nodes with an untolerated taint: listed, but not targeted
 }
 
 func c09Cases(thorough bool) []c09Case {
@@ -43,7 +44,10 @@ func c09Cases(thorough bool) []c09Case {
 					for _, inc := range []string{"1", "2", "50%", "100%"} {
 						for _, par := range []int32{1, 2, 250} {
 							for _, ac := range []string{"absent", "False", "True"} {
-								out = append(out, c09Case{L, K, T, I, inc, par, ac})
+								out = append(out, c09Case{L, K, T, I, inc, par, ac, 0})
+								if strings.HasSuffix(inc, "%") && ac == "True" {
+									out = append(out, c09Case{L, K, T, I, inc, par, ac, 2})
+								}
 							}
 						}
 					}
@@ -84,6 +88,11 @@ func c09Objects(c c09Case, now time.Time) (*v1.ExtendedDaemonSet, *v1.ExtendedDa
 		if i >= c.L {
 			pods[n] = c03Pod(cUpAvail, "ns", rs.Name, "foo", n, rs.Spec.TemplateGeneration, now)
 		}
+	}
+	for i := 0; i < c.Untargeted; i++ {
+		n := w.MkNode(fmt.Sprintf("t%d", i+1), nil)
+		n.Spec.Taints = []corev1.Taint{{Key: "dedicated", Value: "x", Effect: corev1.TaintEffectNoSchedule}}
+		nodes = append(nodes, n)
 	}
 	return eds, rs, nodes, pods
 }
